@@ -5,6 +5,10 @@ Import ListNotations.
 Require Import PV.Core.Obj PV.Core.Val PV.Core.Cls PV.Core.Member PV.Core.CanAssignK PV.Core.CanAssign PV.Core.C04Run.
 Require Import PV.Core.C03Run PV.Proofs.C04Laws PV.Proofs.C04Mono PV.Proofs.C04Refl PV.Gen.ClassTable.
 
+(* conversion hints only: keep the kernel from unfolding the dumped tables / the fuelled equality
+   when it re-checks proof terms (vm_compute is unaffected) *)
+Local Strategy opaque [tassign_tbl issub_tbl nomk_tbl gb_args_tbl gb_noargs_tbl classes veq veq_f].
+
 (* soundness for membership, at full strength (Any-free, no guard) *)
 Definition sound_full_statement : Prop :=
   forall A B o, has_any A = false -> has_any B = false ->
